@@ -50,7 +50,8 @@ def make_tree(base):
         p = os.path.join(base, rel)
         os.makedirs(os.path.dirname(p), exist_ok=True)
         with open(p, "w") as f:
-            f.write('diag_log "TOK_%s";\n' % tok)
+            # (one file sleeps first: a script started with execVM is a scheduled script)
+            f.write(('sleep 0.001;\n' if rel == "inside1/only1.sqf" else "") + 'diag_log "TOK_%s";\n' % tok)
     for rel, (tok, incs) in RELINC.items():
         p = os.path.join(base, rel)
         os.makedirs(os.path.dirname(p), exist_ok=True)
